@@ -1,6 +1,8 @@
 #!/bin/bash
 # tools_seed_eval.sh <seed-id> <worktree> <property> : confirm a seeded change (tests pass with it, demo fails with it / passes
-# without it), store it under /verif/seeded/<seed-id>/ and run the property's quick check against it in /repo.
+# without it), store it under /verif/seeded/<seed-id>/ and run the property's quick check against the changed tree.
+# The check runs on the scratch worktree (VERIF_REPO) with evidence/replay output diverted (VERIF_OUT), so that /repo itself
+# and the committed evidence stay untouched; `tools_seed_apply.sh` does the same by git apply on /repo.
 set -u
 ID=$1; WT=$2; PROP=$3
 D=/verif/seeded/$ID
@@ -11,4 +13,6 @@ echo "== tests with patch (worktree)"; (cmake --build _build 2>&1 | tail -1; cte
 echo "== demo with patch (expect non-zero)"; (cd $D && bash ./demo.sh $WT/_build >/dev/null 2>&1; echo "rc=$?")
 echo "== demo without patch (expect 0)"; (cd $D && bash ./demo.sh /repo/_build >/dev/null 2>&1; echo "rc=$?")
 echo "== check $PROP against the change"
-git -C /repo apply $D/patch.diff && (cd /verif && bin/check $PROP 2>&1 | grep -v " ok " | cut -c1-260 | tail -6); git -C /repo checkout -- . ; git -C /repo status --short | grep -v _build | head -3
+O=$(mktemp -d /tmp/seedout_XXXX)
+(cd /verif && VERIF_REPO=$WT VERIF_OUT=$O bin/check $PROP 2>&1 | grep -v " ok " | cut -c1-260 | tail -6)
+rm -rf $O
